@@ -159,7 +159,7 @@ func run(c Case) kit.Verdict {
 			retry = true
 		}
 	}
-	if retry {
+	if retry && !kit.Shrinking() {
 		v2 := runOnce(c, 3*kit.T())
 		if len(v2) == 0 {
 			kit.Inconclusive("faults")
